@@ -9,8 +9,8 @@
 #include "vsched.h"
 
 // ---- scenario rows ---------------------------------------------------------------------------------
-enum { F_2BLK, F_3BLK, F_BADCHECK_LAST, F_BAD_FIRST, F_TRUNC, F_UNSIZED_MID, F_EMPTY_MID, F_BADHDR, F_BADINDEX, F_BCJ_BAD, F_2STREAMS, F_BIGBLK, F_BAD_MID3, F_UNSUP_2ND, F_INITFAIL_3RD, F_4TRUNC, F_BAD1_UNSIZED2, F_2GROW, F_N };
-static const char *FN[] = { "2blk", "3blk", "badcheck-last", "bad-first", "trunc-mid", "unsized-mid", "empty-mid", "bad-blockheader", "bad-index", "bcj-bad-payload", "2streams+pad", "big-40k", "bad-mid-of-3", "unsupported-filter-2nd", "filter-init-fails-3rd", "4blk-trunc-in-4th", "bad-first-then-unsized", "2blk-second-bigger" };
+enum { F_2BLK, F_3BLK, F_BADCHECK_LAST, F_BAD_FIRST, F_TRUNC, F_UNSIZED_MID, F_EMPTY_MID, F_BADHDR, F_BADINDEX, F_BCJ_BAD, F_2STREAMS, F_BIGBLK, F_BAD_MID3, F_UNSUP_2ND, F_INITFAIL_3RD, F_4TRUNC, F_BAD1_UNSIZED2, F_2GROW, F_2DICT, F_N };
+static const char *FN[] = { "2blk", "3blk", "badcheck-last", "bad-first", "trunc-mid", "unsized-mid", "empty-mid", "bad-blockheader", "bad-index", "bcj-bad-payload", "2streams+pad", "big-40k", "bad-mid-of-3", "unsupported-filter-2nd", "filter-init-fails-3rd", "4blk-trunc-in-4th", "bad-first-then-unsized", "2blk-second-bigger", "2blk-second-needs-more-memory" };
 typedef struct { int file, threads, inchunk, outchunk, timeout; uint32_t flags; uint64_t mlt, mls; int raise, early, reinit, probes; int bp, bt, bs; int tier; int mode; } row;	// mode: 0 normal, 1 truncation sweep over the second Block, 2 drain with no input after the Blocks were supplied
 #define NOLIM UINT64_MAX
 // tier: 0 = quick+thorough, 1 = thorough only.  bp/bt/bs = preemption / timeout / spurious bounds at quick; thorough adds 1 to bp for 2-thread rows.
@@ -65,6 +65,9 @@ static const row ROWS[] = {
 	{ F_INITFAIL_3RD,   2, 5,  0,  0, 0,                    NOLIM, NOLIM, 0,    0,    -1,    0,     1, 0, 0, 0 },
 	{ F_2BLK,           2, 0,  0,  0, 0,                    NOLIM, NOLIM, 0,    0,    0,     0,     1, 0, 0, 0, 1 },	// input ends at every offset of the second Block
 	{ F_2BLK,           2, 3,  2,  0, 0,                    NOLIM, NOLIM, 0,    0,    0,     0,     1, 0, 0, 0, 1 },
+	{ F_2DICT,          2, 60, 0,  0, 0,                    NOLIM, 100000, 1,   0,    0,     0,     1, 0, 0, 0 },	// LZMA_MEMLIMIT_ERROR for the second Block while the first is still being decoded and input is pending (LZMA_RUN); then the limit is raised
+	{ F_2DICT,          2, 60, 3,  0, 0,                    NOLIM, 100000, 1,   0,    0,     0,     1, 0, 0, 0 },
+	{ F_2DICT,          2, 0,  0,  1, 0,                    NOLIM, 100000, 1,   0,    0,     0,     1, 1, 0, 0 },
 	{ F_2GROW,          2, 0,  0,  0, 0,                    NOLIM, NOLIM, 0,    0,    0,     0,     1, 0, 0, 0, 1 },	// same sweep, second Block bigger than the first (an output buffer is recycled and the second worker sees as much input as the first had)
 	{ F_2GROW,          2, 5,  0,  0, 0,                    NOLIM, NOLIM, 0,    0,    0,     0,     0, 0, 0, 0, 1 },
 	{ F_3BLK,           2, 0,  3,  0, 0,                    NOLIM, NOLIM, 0,    0,    0,     0,     1, 0, 0, 0, 2 },	// all Blocks supplied, then LZMA_RUN calls without input until everything decodable has arrived
@@ -108,6 +111,7 @@ static int build_file(int kind) {
 	if (kind == F_UNSIZED_MID || kind == F_BAD1_UNSIZED2) b[1].sized = 0;
 	if (kind == F_INITFAIL_3RD) b[2].chain = 3;
 	if (kind == F_EMPTY_MID) { b[1].len = 0; b[2].data = plain + bsz; }
+	if (kind == F_2DICT) b[1].chain = 4;	// the second Block declares a 64 KiB dictionary: with memlimit_stop between the two needs the decoder must first deliver the first Block, then stop
 	if (kind == F_2GROW) { uint32_t x = 77; memset(plain, 'a', 60); for (int i = 60; i < 120; i++) { x = x * 1664525u + 1013904223u; plain[i] = (unsigned char)(x >> 24); } b[0] = (mk_block){ plain, 60, 1, 0 }; b[1] = (mk_block){ plain + 60, 60, 1, 0 }; }	// same uncompressed size (the output buffer of the first Block is recycled for the second), but the second Block's compressed data is longer than the whole first Block: every input amount the first Block ever had occurs again
 	plen = 0; for (int i = 0; i < nb; i++) plen += b[i].len;
 	clen = mk_xz(comp, sizeof comp, b, nb, kind == F_3BLK || kind == F_UNSIZED_MID ? LZMA_CHECK_SHA256 : LZMA_CHECK_CRC32, &lay); if (!clen) return -1;	// SHA-256 where three Blocks can be checked by different workers at the same time
@@ -231,7 +235,7 @@ static void body_checked(void) { H_CASE("c07_mtdec row=%s early=%d reinit=%d tru
 
 static void row_name(const row *r, int idx) {
 	snprintf(rowname, sizeof rowname, "%d:%s,thr=%d,in=%d,out=%d,to=%d,fl=%#x,mlt=%s,mls=%s%s%s%s", idx, FN[r->file], r->threads, r->inchunk, r->outchunk, r->timeout, r->flags,
-		r->mlt == NOLIM ? "inf" : r->mlt == 1 ? "1" : "small", r->mls == NOLIM ? "inf" : "1+raise", r->early ? ",early-end" : "", r->reinit ? ",reinit" : "", r->probes ? ",probes" : ""); if (r->mode) { size_t l = strlen(rowname); snprintf(rowname + l, sizeof rowname - l, "%s", r->mode == 1 ? ",trunc-sweep" : r->mode == 3 ? ",exact-output+cut-sweep" : ",drain"); }
+		r->mlt == NOLIM ? "inf" : r->mlt == 1 ? "1" : "small", r->mls == NOLIM ? "inf" : r->mls == 1 ? "1+raise" : "between+raise", r->early ? ",early-end" : "", r->reinit ? ",reinit" : "", r->probes ? ",probes" : ""); if (r->mode) { size_t l = strlen(rowname); snprintf(rowname + l, sizeof rowname - l, "%s", r->mode == 1 ? ",trunc-sweep" : r->mode == 3 ? ",exact-output+cut-sweep" : ",drain"); }
 }
 static int parse_schedule(const char *s) {	// "i:c i:c" -> vs_prefix; options counts unknown (-1 = do not check)
 	int maxi = -1; memset(vs_prefix, 0, sizeof(int) * VS_MAXPTS);
